@@ -92,8 +92,9 @@ NormLead(lead, i, afterBreak, acc) ==
 NSIndex(toks, j) == j - Cardinality({i \in 1..j : toks[i].ty = "SEMICOLON"})
 Anchors(stree, stoks) ==
   LET reqs == Requests(stree, stoks)
-  IN {NSIndex(stoks, reqs[q].tok) : q \in {x \in 1..Len(reqs) : reqs[x].kind \in {"stmt", "close"}}}
-     \cup {NSIndex(stoks, Len(stoks))}
+  IN ({NSIndex(stoks, reqs[q].tok) : q \in {x \in 1..Len(reqs) : reqs[x].kind \in {"stmt", "close"}}}
+      \cup {NSIndex(stoks, Len(stoks))})
+     \cap (1..Len(NS(stoks)))      \* (a tree with statements the reference walk does not know must not break the judge)
 RECURSIVE DropLeadingBlanks(_), DropTrailingBlanks(_)
 DropLeadingBlanks(w) == IF w # <<>> /\ Head(w) = "<blank>" THEN DropLeadingBlanks(Tail(w)) ELSE w
 DropTrailingBlanks(w) == IF w # <<>> /\ w[Len(w)] = "<blank>" THEN DropTrailingBlanks(SubSeq(w, 1, Len(w) - 1)) ELSE w
